@@ -155,9 +155,28 @@ class MarginRule(cssrule.CSSRule):
 
         # TEMP: all style tokens are saved in store to fill styledeclaration
         # TODO: resolve when all generators
-        styletokens = Prod(
+        class StyleTokens(Prod):
+            "any token up to the } closing the rule, nested blocks included"
+
+            depth = 0
+            last = None
+
+            def matches(self, token):
+                if token and token is not self.last:
+                    # (asked more than once for a token, counted once)
+                    self.last, self.wasnested = token, False
+                    if token[0] == 'CHAR' and token[1] == '{':
+                        self.depth += 1
+                    elif token[0] == 'CHAR' and token[1] == '}' and self.depth:
+                        self.depth -= 1
+                        self.wasnested = True
+                return bool(token) and (
+                    (token[0], token[1]) != ('CHAR', '}') or self.wasnested
+                )
+
+        styletokens = StyleTokens(
             name='styletokens',
-            match=lambda t, v: v != '}',
+            match=None,
             # toSeq=False,
             toStore='styletokens',
             storeToken=True,
